@@ -201,7 +201,7 @@ ASSUMPTIONS = ["layer configurations: map(+k), flat_map(v -> future of v+k; alre
 BOUNDS_TEXT = {"quick": "all 7 stacks of depth 1 (P<=1) and all 49 of depth 2 (P=0), over sync and thread_pool(2); 2 submissions from 2 threads",
                "thorough": "depth<=2 at P<=1, depth 3 (all 343) over sync at P=0; seed-selected depth 4-6 stacks at P=0 (beyond the bound, reported separately)"}
 MUST_REACH = {"*": ["value-checked", "error-checked"]}
-BUDGET = {"quick": 200.0, "thorough": 2400.0}
+BUDGET = {"quick": 200.0, "thorough": 900.0}
 
 
 HEAVY = ("retry", "poll", "throttle", "timeout")
